@@ -229,7 +229,7 @@ func TestC02(t *testing.T) {
 		}
 		rec.Rule("rapid playouts from suite/bench/synthetic/motif roots and en-passant parent constructions; at every position EVERY legal move is made, the successor compared field by field (placement, side, rights, en-passant target iff a legal en-passant capture exists, halfmove clock, fullmove number, FEN text) with the reference successor, and undone; the chosen move is kept (chains). UCI leg: `position [fen F|startpos] moves ...` + `fen`. Non-trivial = capture, castle, en passant, promotion, rights change, or double push beside an enemy pawn; distinct by (position, move)")
 		rec.Assume("reference rules implementation verif/refchess incl. its en-passant capturability test (self-tested against published perft numbers)")
-		rec.Rapid(t, "successor", evid.Pick(40000, 500000), func(t *rapid.T) {
+		rec.Rapid(t, "successor", evid.Pick(40000, 4000000), func(t *rapid.T) {
 			c := genCase(t, rec, 30)
 			if rec.WantSample("successor") {
 				rec.Sample("successor", c)
@@ -239,7 +239,7 @@ func TestC02(t *testing.T) {
 				t.Fatalf("%v", err)
 			}
 		})
-		rec.Rapid(t, "uci", evid.Pick(6000, 60000), func(t *rapid.T) {
+		rec.Rapid(t, "uci", evid.Pick(6000, 300000), func(t *rapid.T) {
 			c := genCase(t, nil, 60)
 			c.UCI = true
 			if gen.Chance(t, 1, 5, "startpos") {
